@@ -704,6 +704,9 @@ func (p *lcProg) useAll(kid, stage string, httpToo map[int]bool) {
 		if e.http && httpToo != nil && !httpToo[i] {
 			continue
 		}
+		if e.kind == lcKindRegistered && !p.h.r.Thorough() {
+			continue // quick: Exists/List (which use no key and cannot refute anything) only run as warm-up and inside transactions
+		}
 		p.use(e, kid, stage)
 	}
 }
@@ -904,7 +907,7 @@ func (p *lcProg) cleanup() {
 	if _, ok := p.t.rows[p.kid]; ok && p.aborted == "" {
 		p.doDelete(p.kid)
 		p.done = append(p.done, "final-delete")
-		for _, i := range []int{0, 2, 3, 6} {
+		for _, i := range []int{2, 3, 6}[:p.h.r.Pick(2, 3)] {
 			p.use(p.entries[i], p.kid, "after-final-delete")
 		}
 	}
